@@ -153,6 +153,31 @@ var c10Scripts = []c10Script{
 		func(x *c10Ctx) { x.in = x.w.Connect(x.ps.Addr); x.in.Handshake(x.ps.RemoteAS, 90, remoteIDu) },
 		func(x *c10Ctx) { x.in.Close() },
 	}},
+	{name: "open-write-fails", setup: func(x *c10Ctx) {
+		// the first outbound connection is reset by the remote before the OPEN is written;
+		// the same fsm object then makes a second connection
+		x.ps.IdleHold = time.Second
+		n := 0
+		x.w.DialPolicy = func(hz.DialReq) (hz.DialAction, time.Duration) {
+			n++
+			switch n {
+			case 1:
+				return hz.DialAcceptBroken, 0
+			case 2:
+				return hz.DialAccept, 0
+			}
+			return hz.DialRefuse, 0
+		}
+	}, steps: []func(*c10Ctx){
+		func(x *c10Ctx) { x.w.WaitOut(1, time.Second) },
+		func(x *c10Ctx) { x.out = x.w.WaitOut(2, 3*time.Second) },
+		func(x *c10Ctx) { x.open(x.out) },
+		func(x *c10Ctx) {
+			if x.out != nil {
+				x.out.SendKeepalive()
+			}
+		},
+	}},
 	{name: "handler-writes", setup: func(x *c10Ctx) {
 		// the update handler takes a few microseconds and then answers with WriteUpdate: a
 		// stop issued meanwhile has to wait for it, and the write must return
